@@ -46,6 +46,19 @@ func (m mutation) class() string {
 	return strings.Join(parts, ".") + ":" + m.Name
 }
 
+// nodeClass is the class of the corrupted node only (indices -> N, action names -> REL), without the operation.
+func (m mutation) nodeClass() string {
+	c := m.class()
+	c = c[:strings.LastIndex(c, ":")]
+	for _, rel := range []string{"download", "upload", "verify"} {
+		c = strings.Replace(c, "actions."+rel, "actions.REL", 1)
+	}
+	if m.Op == "add" {
+		c += "+" + m.Add
+	}
+	return c
+}
+
 func parseTree(b []byte) (interface{}, error) {
 	d := json.NewDecoder(bytes.NewReader(b))
 	d.UseNumber()
